@@ -350,6 +350,10 @@ def _truncated(t, x, r, world, path="$", depth=0):
                     return e
         return None
     if k in ("dict", "Mapping", "MutableMapping") and isinstance(x, dict) and isinstance(r, dict):
+        if len(r) != len(x):
+            # two input keys were converted to one key (bool("extra") is True): the entry found under
+            # an input key need not come from it - no correspondence to follow
+            return None
         for kk, xv in x.items():
             if kk in r:
                 e = _truncated(t["a"][1], xv, r[kk], world, f"{path}[{kk!r:.20}]", depth + 1)
